@@ -121,6 +121,12 @@ def check_call(scn: dict, cf, out: list, grants=()) -> None:
                          {"call": cf.cid, "attempt": a.k, "entry": entry, "slept": bool(sleeps)}))
         # ---- compute Continues(k)
         decision = handlers[0]["decision"] if handlers else "S"
+        raw_decision = decision in ("d", "a")
+        if raw_decision:
+            if nxt is not None or sleeps:
+                out.append(V("R2", "extra attempt / sleep although the sleep handler answered 'defer' or 'abort' (as a plain string)",
+                             {"call": cf.cid, "attempt": a.k, "entry": entry, "answer": decision, "slept": bool(sleeps), "next_attempt": nxt is not None}))
+            continue
         after_sleep_t = sleep_ends[-1]["t"] if sleep_ends else None
         overs = sum(e["overshoot"] for e in sleep_ends)
         permitted = not S and (not has_budget or (budgets and budgets[0]["granted"]))
@@ -205,7 +211,17 @@ BUDGETS = {"quick": (72000, 90), "thorough": (3500000, 285)}
 
 
 def gen(seed, tier="quick"):
-    return G.gen_retry(seed, KNOBS)
+    scn = G.gen_retry(seed, KNOBS)
+    import random as _random
+    r = _random.Random(seed ^ 0xC03)
+    if r.random() < 0.06:
+        # the handler answers with the plain strings "defer" / "abort" (equal to the SleepDecision members, not
+        # identical): however the library takes that -- as the decision, or as an invalid answer -- it says
+        # "do not go on", so no further attempt may follow
+        for c in scn["calls"]:
+            if c.get("decisions"):
+                c["decisions"][-1] = r.choice(["d", "a"])
+    return scn
 
 
 def _probes(scn, trace, probes):
